@@ -123,6 +123,10 @@ def _pattern_value(e, env):
         return v
     if isinstance(e, ast.Call) and isinstance(e.func, ast.Attribute) and e.func.attr == 'format' and isinstance(e.func.value, ast.Constant) and isinstance(e.func.value.value, str):
         return e.func.value.value.replace('{}', 'X')
+    if isinstance(e, ast.Call) and isinstance(e.func, ast.Attribute) and e.func.attr == 'format' and not e.keywords:
+        base = _pattern_value(e.func.value, env)     # (CONST + 'text{}').format(x)
+        if base is not None:
+            return base.replace('{}', 'X')
     if isinstance(e, ast.JoinedStr):
         def piece(x):
             if isinstance(x, ast.Constant):
@@ -333,7 +337,8 @@ def rule_pa_litorder(cx, rep, port):
                 ops.add(c.func.attr)
             if isinstance(c, ast.Call) and (dotted(c.func) or '').startswith('re.'):
                 ops.add(dotted(c.func))
-    allowed = {'split', 'strip', 'trim', 'lstrip', 'trimStart', 'trimEnd', 'trimLeft', 'trimRight', 'startswith', 'startsWith', 'join', 'rstrip', 'map', 'filter', 'replace'}
+    allowed = {'split', 'strip', 'trim', 'lstrip', 'trimStart', 'trimEnd', 'trimLeft', 'trimRight', 'startswith', 'startsWith', 'join', 'rstrip', 'map', 'filter', 'replace',
+               'append', 'push', 'extend'}      # accumulating lines in a list does not touch their characters
     extra = ops - allowed
     rep.decide(not extra, 'cleanup operations', cq, 'cleanup uses only line splitting, trimming, comment-line removal, joining, final-semicolon removal', 'cleanup_query/strip_comments apply {} to the raw text (literal contents could change)'.format(sorted(extra)))
     if 'replace' in ops:
@@ -547,6 +552,11 @@ def _comment_lines(rep, p, mod, port, cq, sc):
         if isinstance(n, ast.Call) and isinstance(n.func, ast.Attribute) and n.func.attr == 'filter' and n.args:
             filt.append((n.args[0], n))
     if not filt:
+        lists, lines, _ = _line_vars(cq)
+        for n in ast.walk(cq):
+            if isinstance(n, ast.If) and not n.orelse and any(isinstance(x, ast.Call) and isinstance(x.func, ast.Attribute) and x.func.attr in ('append', 'push') for st_ in n.body for x in ast.walk(st_)) and any(isinstance(x, ast.Name) and x.id in lines for x in ast.walk(n.test)):
+                filt.append((n.test, n))
+    if not filt:
         rep.undecided('empty-line filter', cq, 'no empty-line filter found in cleanup_query')
         return
     fexpr = filt[0][0]
@@ -638,7 +648,21 @@ def rule_pa_lit(cx, rep, port):
         for (am, af, atext), reason in LIT_ALLOW.items():
             if am == m and af == fd.name and atext.split('#')[0] in gtxt:
                 allow = reason
-        key = '{}.{}: raise under `{}`'.format(m, fd.name, gtxt)
+        # identified by what is raised (class + beginning of the message), not by how the guard happens to be spelled
+        what = 'error'
+        if r.exc is not None and isinstance(r.exc, ast.Call):
+            what = (dotted(r.exc.func) or 'error').split('.')[-1]
+            msg = None
+            for x in ast.walk(r.exc):
+                if isinstance(x, ast.Constant) and isinstance(x.value, str) and len(x.value) > 3:
+                    msg = x.value
+                    break
+                if isinstance(x, ast.Name) and x.id in p.module_consts(m) and isinstance(p.module_consts(m)[x.id], str):
+                    msg = p.module_consts(m)[x.id]
+                    break
+            if msg:
+                what += '({!r}...)'.format(msg[:28])
+        key = '{}.{}: raise {} depends on the raw text'.format(m, fd.name, what)
         if key in seen_keys:
             continue
         seen_keys.add(key)
@@ -1148,6 +1172,56 @@ def rule_pa_zero(cx, rep, port):
     rep.require_count('bound presence tests', n + len(bad), 1, (p.files[mod], 0))
 
 
+def _line_vars(cq):
+    """names that stand for one line of the query in cleanup_query: targets of loops / comprehensions over `<text>.split('\\n')`
+    (or over a list built from such lines), and names bound to a function of such a line"""
+    prm = cq.args.args[0].arg
+
+    def is_lines(e, lists):
+        if isinstance(e, ast.Call) and isinstance(e.func, ast.Attribute) and e.func.attr == 'split' and e.args and const_value(e.args[0]) == '\n' and is_name(e.func.value, prm):
+            return True
+        if isinstance(e, ast.Name) and e.id in lists:
+            return True
+        if isinstance(e, ast.Call) and isinstance(e.func, ast.Attribute) and e.func.attr in ('map', 'filter') and is_lines(e.func.value, lists):
+            return True
+        if isinstance(e, ast.ListComp) and len(e.generators) == 1 and is_lines(e.generators[0].iter, lists):
+            return True
+        return False
+    lists, lines = set(), set()
+    for _ in range(4):
+        for n in ast.walk(cq):
+            if isinstance(n, ast.Assign) and len(n.targets) == 1 and isinstance(n.targets[0], ast.Name):
+                if is_lines(n.value, lists):
+                    lists.add(n.targets[0].id)
+                elif any(isinstance(x, ast.Name) and x.id in lines for x in ast.walk(n.value)):
+                    lines.add(n.targets[0].id)
+            if isinstance(n, ast.For) and is_lines(n.iter, lists):
+                lines |= {x.id for x in ast.walk(n.target) if isinstance(x, ast.Name)}
+            if isinstance(n, ast.comprehension) and is_lines(n.iter, lists):
+                lines |= {x.id for x in ast.walk(n.target) if isinstance(x, ast.Name)}
+            if isinstance(n, ast.Expr) and isinstance(n.value, ast.Call) and isinstance(n.value.func, ast.Attribute) and n.value.func.attr in ('append', 'push') and isinstance(n.value.func.value, ast.Name) and n.value.args and any(isinstance(x, ast.Name) and x.id in lines for x in ast.walk(n.value.args[0])):
+                lists.add(n.value.func.value.id)
+    return lists, lines, is_lines
+
+
+def _per_line_strip(cq):
+    """strip_comments is applied to single lines of the query (comprehension, loop, map), never to the whole text"""
+    lists, lines, is_lines = _line_vars(cq)
+    hits = 0
+    for c in ast.walk(cq):
+        if isinstance(c, ast.Call) and call_name(c) == 'strip_comments' and c.args:
+            if isinstance(c.args[0], ast.Name) and c.args[0].id in lines:
+                hits += 1
+            else:
+                return False
+        if isinstance(c, ast.Call) and isinstance(c.func, ast.Attribute) and c.func.attr == 'map' and c.args and is_name(c.args[0], 'strip_comments'):
+            if is_lines(c.func.value, lists):
+                hits += 1
+            else:
+                return False
+    return hits >= 1
+
+
 def rule_pa_cleanorder(cx, rep, port):
     """the trailing-semicolon strip is applied to the joined text after comment lines were dropped"""
     p = cx.port(port)
@@ -1170,9 +1244,7 @@ def rule_pa_cleanorder(cx, rep, port):
         joined = bool(defs) and any(isinstance(x, ast.Call) and isinstance(x.func, ast.Attribute) and x.func.attr == 'join' for x in ast.walk(defs[-1].value))
     rep.decide(joined, 'semicolon strip', strips[0], 'the semicolon is stripped from the joined, comment-free text', 'the trailing semicolon is stripped before comment lines are removed: a query that ends with `;` followed by comment lines keeps its semicolon')
     # comment stripping and empty-line dropping happen per line, before joining
-    t = node_text(cq, 2000)
-    per_line = ('strip_comments(l) for l in' in t or 'map(strip_comments)' in t)
-    rep.decide(per_line, 'per-line comment strip', cq, 'comment lines are removed line by line', 'comment lines are no longer removed line by line')
+    rep.decide(_per_line_strip(cq), 'per-line comment strip', cq, 'comment lines are removed line by line', 'comment lines are no longer removed line by line')
 
 
 def rule_pa_subst(cx, rep, port):
